@@ -3,7 +3,9 @@
    sumbool, sumor -> native OCaml types); N / positive / nat stay as the
    extracted inductive datatypes. *)
 From Coq Require Import Extraction ExtrOcamlBasic.
-From Resolvo Require Import Spec.Oracle.
+From Resolvo Require Import Spec.Oracle Cdcl.CheckRun.
 Extraction Language OCaml.
-Extraction "oracle.ml" mkU mkSol mkVs mkPkg mkProblem
-  o_valid o_supported o_solvable o_greedy o_explicit_first.
+Extraction "oracle.ml" table_provider mkU mkSol mkVs mkPkg mkProblem
+  o_valid o_supported o_solvable o_greedy o_explicit_first
+  mkLog mkCl check_db check_run check_sat_log check_sat_log_lenient check_unsat_log facts_ok learnts_ok wf_universeb
+  factb db_idx learnt_okb rup.
